@@ -15,6 +15,7 @@ from hpl.ast.expressions import (
     And,
     BinaryOperatorDefinition,
     BuiltinBinaryOperator,
+    DataType,
     Forall,
     FunctionDefinition,
     HplBinaryOperator,
@@ -1009,7 +1010,8 @@ def _simplify_function_sum(call: HplFunctionCall) -> HplExpression:
         n = sum(literals)
         expr: HplExpression = HplLiteral.number(n)
         for v in variables:
-            expr = HplBinaryOperator.addition(v, expr)
+            # cast makes a copy: do not narrow the type of the caller's node in place
+            expr = HplBinaryOperator.addition(v.cast(DataType.NUMBER), expr)
         return _simplify(expr)
     if isinstance(arg, HplRange):
         if is_number_literal(arg.min_value) and is_number_literal(arg.max_value):
@@ -1040,7 +1042,8 @@ def _simplify_function_prod(call: HplFunctionCall) -> HplExpression:
         if n == 0:
             return expr
         for v in variables:
-            expr = HplBinaryOperator.multiplication(v, expr)
+            # cast makes a copy: do not narrow the type of the caller's node in place
+            expr = HplBinaryOperator.multiplication(v.cast(DataType.NUMBER), expr)
         return _simplify(expr)
     if isinstance(arg, HplRange):
         if is_number_literal(arg.min_value) and is_number_literal(arg.max_value):
